@@ -49,6 +49,8 @@ TNext ==
          [] e.ev = "reply" -> /\ Bad(RespondReasons(Rp(e)) \cup RootReasons(Rp(e)))
                               /\ Respond(Rp(e)) /\ UNCHANGED fault
          [] e.ev = "round_end" -> /\ Bad(RoundEndReasons) /\ UNCHANGED <<reqs, roots, totals, fault>>
+         [] e.ev = "hc_round" -> /\ Bad(IF e.ok200 = e.conns /\ e.connected = e.conns THEN {} ELSE {"health_check_unanswered"})
+                                 /\ UNCHANGED <<reqs, roots, totals, fault>>
          [] e.ev = "log" -> /\ Bad(IF e.leak THEN {"leak_in_log"} ELSE {}) /\ UNCHANGED <<reqs, roots, totals, fault>>
          [] e.ev = "stats" ->
               /\ Bad((IF e.valid = totals.replies THEN {} ELSE {"stats_valid_requests"})
